@@ -4,11 +4,11 @@ from .common import H, TOPOS_QUICK, TOPOS_THOROUGH
 def c11(tier):
     runs = []
     if tier == "quick":
-        for t in TOPOS_QUICK:
-            runs.append(H("c11_graphs", "asan", 450, t, timeout_per_case=20))
+        for i, t in enumerate(TOPOS_QUICK):
+            runs.append(H("c11_graphs", "asan", 600, t, timeout_per_case=20, params=dict(salt=i)))
     else:
-        for t in TOPOS_THOROUGH:
-            runs.append(H("c11_graphs", "asan", 1500, t, timeout_per_case=30))
+        for i, t in enumerate(TOPOS_THOROUGH):
+            runs.append(H("c11_graphs", "asan", 1500, t, timeout_per_case=30, params=dict(salt=i)))
     return runs
 
 
